@@ -134,7 +134,7 @@ ACheck == /\ apc = "check"
           /\ UNCHANGED <<script, cvars, link, hvars, cclosed, wpc, acur, lgen, lopen, faults, lfails, tclpc, uvars, uclpc, svars, wg, late, badTimeout>>
 AReopen == /\ apc = "reopen"
            /\ \/ /\ lgen' = lgen + 1 /\ lopen' = TRUE /\ lfails' = lfails      \* backoffCounter.Reset()
-                 /\ apc' = IF Protocol = "repaired" THEN "recheck" ELSE "accept"
+                 /\ apc' = IF Protocol = "repaired" /\ Dev # "no_recheck_after_reopen" THEN "recheck" ELSE "accept"
               \/ /\ lfails < MaxListenFail /\ lfails' = lfails + 1 /\ apc' = "backoff"
                  /\ UNCHANGED <<lgen, lopen>>
            /\ UNCHANGED <<script, cvars, link, hvars, cclosed, wpc, acur, faults, tclpc, uvars, uclpc, svars, wg, late, badTimeout>>
